@@ -69,7 +69,7 @@ def regenerate():
     import gen_manifests
     gen_manifests.main(REPO, os.path.join(LEAN, 'Generated', 'Manifests.lean'))
     subprocess.run([sys.executable, os.path.join(ROOT, 'run', 'gen64.py')], check=True)
-    subprocess.run([sys.executable, os.path.join(ROOT, 'run', 'gen64proofs.py'), 'F32Core', 'F32Wf', 'F32Real', 'F32Ops', 'F32Approx', 'F32Dot', 'F32Div', 'F32Exact', 'F32Mono', 'F32MonoOps', 'F32Ident', 'F32Invert', 'F32Sign'], check=True)
+    subprocess.run([sys.executable, os.path.join(ROOT, 'run', 'gen64proofs.py'), 'F32Core', 'F32Wf', 'F32Real', 'F32Ops', 'F32Approx', 'F32Dot', 'F32Div', 'F32Exact', 'F32Mono', 'F32MonoOps', 'F32Ident', 'F32Invert', 'F32Sign', 'F32Odd'], check=True)
     changed = []
     try:
         base = json.load(open(os.path.join(ROOT, 'run', 'fingerprints.json')))
